@@ -571,6 +571,8 @@ func (e *env) runOne(c *Case) (o *Obs) {
 		return e.runUpload(c)
 	case "accept":
 		return e.runAccept(c)
+	case "dialtl":
+		return e.runLattice(c)
 	default:
 		return e.runFault(c)
 	}
@@ -602,6 +604,13 @@ func (e *env) probeAll() map[string]string {
 
 // upstreamFault tells how the upstream proxy of a proxy instance fails to be reached ("" = it does not).
 func upstreamFault(upstream string) string {
+	if lp, ok := parseLatticeProxy(upstream); ok {
+		// an instance of the lattice (lattice.go): its upstream proxy, if it has one, drops SYNs
+		if lp.scheme != "" {
+			return "timeout"
+		}
+		return ""
+	}
 	return map[string]string{"dead": "refused", "hole": "timeout", "rst": "reset"}[strings.TrimPrefix(upstream, "s")]
 }
 
@@ -663,7 +672,11 @@ func childMain(root, file string) {
 				err = fmt.Errorf("panic while setting up: %v\n%s", r, debug.Stack())
 			}
 		}()
-		return newEnv(root)
+		e, err = newEnv(root)
+		if err == nil {
+			err = e.startLattice(bf.Cases)
+		}
+		return e, err
 	}()
 	if err != nil {
 		fmt.Fprintln(os.Stderr, "c12 child: environment:", err)
